@@ -32,7 +32,7 @@ class DD:
         self.max_mapnr = self.top
         if idx % 6 == 4:
             # max_mapnr at the capacity boundary of the two-block bitmap (partial-dump test)
-            self.max_mapnr = rng.choice([PS * 8 - 1, PS * 8, PS * 8 + 1])
+            self.max_mapnr = [PS * 8, PS * 8 + 1, PS * 8 - 1][(idx // 6) % 3]       # the exact boundary comes first (every quick run has it)
             hi = runs_to_set([(self.max_mapnr - 9, 4), (self.max_mapnr - 3, 3)])
             self.file |= hi; self.mem |= hi | {self.max_mapnr - 5}
         nsplit = rng.choice([1, 1, 2, 3])
